@@ -574,6 +574,10 @@ def run_proof(harness: Harness, tier="quick", seed=0, crosscheck=3):
             if not vals.get("__exact__", True):
                 xc["skipped"] += 1
                 continue
+            if any(Fraction(v).denominator > 10**9 for k, v in vals.items() if not k.startswith("__")):
+                xc["skipped"] += 1  # outside A2: Point2D would round this input through limit_denominator(10**9)
+                xc["skipped_outside_A2"] = xc.get("skipped_outside_A2", 0) + 1
+                continue
             r = run_concrete(harness, vals, tier)
             if r["outcome"] == "precondition":
                 xc["skipped"] += 1
